@@ -605,7 +605,11 @@ func combinatorOps(c *core.Ctx) {
 			for _, p := range paths {
 				// fresh sequences of this path and the flags stored into them (a later opaque call may havoc the cell,
 				// so the stores themselves are read)
-				type flags struct{ root, deferred string }
+				type flags struct {
+					root, deferred string
+					nonEmpty       string // a non-empty initial child list (what it was initialised with)
+					seqInit        bool
+				}
 				fresh := map[string]*flags{}
 				for _, st := range p.Events(ir.KStore) {
 					a := st.A[0]
@@ -636,6 +640,29 @@ func combinatorOps(c *core.Ctx) {
 							fl.deferred = st.A[1].Aux
 						}
 					}
+					// the child list of a fresh sequence starts empty: nil, make(.., 0), or an empty literal
+					if a.Op == "faddr" && a.Aux == "Seq" && !fl.seqInit {
+						fl.seqInit = true // the first store is the initialisation; later ones are the appends
+						v := st.A[1]
+						if v.Op == "slice" && len(v.Args) == 4 && v.Args[0].Op == "alloc" {
+							// make([]T, 0) with constant bounds: a fresh array resliced to length 0
+							if hi, isK := v.Args[2].IntConst(); isK && hi == 0 {
+								continue
+							}
+						}
+						empty := v.IsNil() || v.Op == "const" && strings.HasPrefix(v.Aux, "zero")
+						if v.Op == "mkslice" && len(v.Args) > 0 {
+							if k, isK := v.Args[0].IntConst(); isK && k == 0 {
+								empty = true
+							}
+						}
+						if k, _, isArr := freshArrayLen(v); isArr && k == 0 {
+							empty = true
+						}
+						if !empty {
+							fl.nonEmpty = short(v)
+						}
+					}
 				}
 				nFresh := len(fresh)
 				for _, fl := range fresh {
@@ -645,6 +672,9 @@ func combinatorOps(c *core.Ctx) {
 					}
 					if fl.root != wantRoot || fl.deferred != "true" {
 						ok, why = false, fmt.Sprintf("a fresh sequence is created with Root=%s Deferred=%s, expected Root=%s Deferred=true (open)", fl.root, fl.deferred, wantRoot)
+					}
+					if fl.nonEmpty != "" {
+						ok, why = false, "a fresh sequence does not start with an empty child list: "+fl.nonEmpty
 					}
 				}
 				wantFresh := 0
